@@ -299,8 +299,8 @@ def history_task(task, wdir, res):
                             fam = "float_metric"
                         elif name == "count_unique" and fk.rstrip("?") in ("int", "u64", "datetime"):
                             fam = "count_unique_numeric"
-                        elif name in ("count_field", "count_unique", "avg", "total", "min", "max") and fk.endswith("?"):
-                            fam = "metric_over_nullable"
+                        elif name in ("count_field", "count_unique", "avg", "total") and fk.endswith("?"):
+                            fam = "metric_over_nullable"   # MIN / MAX over nullable fields are correct on the tree and stay asserted
                         report("metric_mismatch", sig,
                                f"{text} @ {tier}: group {key} {name}({fld}) = {gv!r}, fold over the selection gives {ev!r} ({len(rows)} selected rows)", w, q, fam)
 
